@@ -485,6 +485,36 @@ def rule_dispatch(r):
 
 
 from . import extra3 as _x3
+
+
+def rule_headroom(r):
+    """Float range headroom of the models declared single-safe.  The units typer (sa/dims.py) gives every arithmetic node
+    of a shape model a (length, SLD) degree from the declared parameter units.  A scattering function has to represent
+    (contrast * volume)^2, length degree 6, and a volume or effective-radius helper a volume, degree 3; an intermediate
+    of a higher degree is a product larger than any value the function must return, and in single precision it leaves
+    the representable range (3.4e38) at sizes where the results themselves are still small -- e.g. degree 9 overflows
+    from about 7e3 Ang where degree 6 holds to 1e6 Ang."""
+    from fractions import Fraction as Fr
+    from . import c13
+    res = c13._c_results()
+    BOUND = {"form_volume": 3, "shell_volume": 3, "radius_effective": 3}
+    for unit, rows in sorted(res.items()):
+        if unit.startswith("__"):
+            continue
+        for row in rows:
+            if row[0] != "PEAK":
+                continue
+            _, _, f, fn, text, line, (dl, ds, inner, single) = row
+            if not single:
+                r.note(f, fn, "peak length degree %s" % dl, line, "model not declared single-safe")
+                continue
+            top = fn.split(":")[1]
+            bound = BOUND.get(top, 6)
+            r.check(Fr(dl) <= bound, f, fn, "highest intermediate degree: length^%s sld^%s at `%s`%s" % (dl, ds, text[:70], "" if inner == top
+                    else " (in %s)" % inner), line, "bound length^%d = the degree of the value %s has to represent; above it the intermediate "
+                    "overflows single precision at sizes where the result is representable" % (bound, top))
+
+
 RULES = [
     ("R-C15-float-lang", 9, "exact language and context of the literal regex", rule_float_lang),
     ("R-C15-keyword", 7, "structure of the double keyword regex", rule_keyword),
@@ -494,6 +524,7 @@ RULES = [
     ("R-C15-tokens", 122, "converted source of every model = prescribed token stream (single, double, long double)", _x3.rule_c15_tokens),
     ("R-C15-builds", 61, "single-precision OpenCL source of every model parses and defines the same functions", _x3.rule_c15_builds),
     ("R-C15-intdiv", 120, "no truncating division of two integer literals in the double- and single-precision units (a literal the converter cannot tag)", _x3.make_intdiv_rule(("dll", "opencl-f32"))),
+    ("R-C15-headroom", 90, "no intermediate of a single-safe shape model exceeds the length degree of the value it computes", rule_headroom),
     ("R-C15-dispatch", 25, "dtype dispatch tables agree", rule_dispatch),
     ("R-C15-cancel", 100, "no 1 - cos / 1 - exp difference in models declared single-safe", _x3.make_cstate_rule("R-C15-cancel")),
     ("R-C15-declared", 15, "models declared unsafe for single precision stay declared unsafe", _x3.rule_c15_declared),
